@@ -426,7 +426,68 @@ def oracle_range_all(ctx, o, table):
                           dict(inp, index=k, ws=ws, wi=wi, range_value=e["range"][k * w:(k + 1) * w], pointwise=e["pointwise"][k * w:(k + 1) * w], points_differing=nbad))
 
 
+HEXRE = re.compile(r"^0x[0-9a-f]{16}$")
+
+
+def nonfinite_in(o, path=""):
+    out = []
+    if isinstance(o, str):
+        if HEXRE.match(o) and not is_finite_hex(o):
+            out.append((path, f64_of_hex(o)))
+    elif isinstance(o, list):
+        for i, x in enumerate(o):
+            out += nonfinite_in(x, f"{path}[{i}]")
+            if len(out) > 8:
+                break
+    elif isinstance(o, dict):
+        for k, x in o.items():
+            out += nonfinite_in(x, f"{path}.{k}" if path else k)
+    return out
+
+
+def brief(o, limit=12):
+    if isinstance(o, list):
+        return [brief(x, limit) for x in o[:limit]] + (["…(%d more)" % (len(o) - limit)] if len(o) > limit else [])
+    if isinstance(o, dict):
+        return {k: brief(v, limit) for k, v in o.items()}
+    return o
+
+
+def describe(o):
+    k = o.get("kind")
+    if k == "steps":
+        return f"Steps({f64_of_hex(o['s'])!r}, {f64_of_hex(o['e'])!r}, {o['n']})"
+    if k == "steps2d":
+        return f"Steps2D(({f64_of_hex(o['x0'])!r}, {f64_of_hex(o['x1'])!r}, {o['nx']}), ({f64_of_hex(o['y0'])!r}, {f64_of_hex(o['y1'])!r}, {o['ny']}))"
+    if k == "space":
+        return f"space conversions from a {o['from']} space {o.get('ws') or o.get('fs') or o.get('sd')}"
+    if k in ("range", "range_all"):
+        return f"range evaluators over a {o['nx']}x{o['ny']} {o['rep']} grid {o['grid']}"
+    return f"observation of kind {k}"
+
+
 def oracle(ctx, obs):
+    """every observation is evaluated on its own: non-finite results and unexpected exceptions become violations carrying the input"""
+    clean = []
+    for o in obs:
+        if o.get("kind") in ("steps", "steps2d", "space", "range", "range_all", "array_iter", "transpose_f"):
+            bad = nonfinite_in(o)
+            if bad:
+                ctx.violation("S5", f"{describe(o)}: the implementation delivered a non-finite value ({bad[0][1]!r} at {bad[0][0]}" + (f", and {len(bad) - 1} more)" if len(bad) > 1 else ")"),
+                              {"kind": "non_finite", "obs": o["kind"]}, {"call": describe(o), "non_finite_at": [b[0] for b in bad], "observation": brief(o)})
+                continue
+        clean.append(o)
+    try:
+        return oracle_inner(ctx, clean)
+    except Exception:
+        import traceback
+        tb = traceback.format_exc()
+        ctx.log(f"   oracle raised: {tb.splitlines()[-1]}")
+        ctx.violation("S5", f"the oracle could not evaluate the harness output ({tb.splitlines()[-1][:160]})", {"kind": "oracle_exception"}, {"trace": tb[-3000:]}, found_input=False)
+        return []
+
+
+def oracle_inner(ctx, obs):
     table = range_table()
     if not any(o["kind"] == "range_all" for o in obs) and any(o["kind"] == "range" for o in obs):
         ctx.proof_failures.append(("harness", "range_all", "no observation of the full range-function table was produced"))
@@ -434,6 +495,9 @@ def oracle(ctx, obs):
         k = o["kind"]
         if k == "harness_crash":
             ctx.violation("S5", "harness crashed", {"kind": "crash"}, o)
+        elif k == "case_panic":
+            call = (o.get("input") or {}).get("call", "?")
+            ctx.violation("S5", f"{call}: the implementation panicked: {o['message'][:200]}", {"kind": "panic", "case": o["case"]}, {"call": call, "input": o.get("input"), "message": o["message"]})
         elif k == "steps":
             oracle_steps(ctx, o)
         elif k == "steps2d":
@@ -675,7 +739,12 @@ def run(ctx):
     ne, nf = selftest(ctx, obs)
     ctx.log(f"S5 oracle self-test: {nf} violations raised on {ne} corrupted observations")
     if os.path.exists(os.path.join(COQ, "Model", "GridCheck.vo")):
-        correspondence(ctx, obs, quick)
+        try:
+            correspondence(ctx, [o for o in obs if o.get("kind") == "steps_overflow" or not nonfinite_in(o)], quick)
+        except Exception:
+            import traceback
+            tb = traceback.format_exc()
+            ctx.proof_failures.append(("Cases/C14", "correspondence", "could not be generated: " + tb.splitlines()[-1][:200]))
     else:
         ctx.note("correspondence cases skipped: generated model did not compile")
     if not proved and not any(v["found_input"] and v["sig"].get("kind") != "transpose_nonsquare" for v in ctx.violations):
